@@ -537,6 +537,7 @@ def run(ctx: fw.Ctx) -> int:
     from kv.props import c19_ens
     c19_ens.ensemble_layer(ctx, HEADER)
     c19_ens.sim_layer(ctx)
+    c19_ens.peer_sim_layer(ctx)
     return ctx.finish(RULE, level_note=[
         'FakeAPI (harness/kv/fakeapi.py) stands for the API server: versions grow, a watch from `since` delivers exactly the later '
         'changes in order, bookmarks only on caught-up streams (Model/Watch.v sstep states the same rules and rejects the trace otherwise)',
